@@ -10,5 +10,7 @@ void ref_skinny64_crypt(uint8_t out[8], const uint8_t in[8], const uint8_t tk1[8
 void ref_skinny64_key_crypt(uint8_t out[8], const uint8_t in[8], const uint8_t *key, unsigned len, int decrypt);
 void ref_skinny64_tweak_crypt(uint8_t out[8], const uint8_t in[8], const uint8_t *key, unsigned len, const uint8_t tweak[8], int decrypt);
 void ref_mantis_crypt(uint8_t out[8], const uint8_t in[8], const uint8_t key[16], const uint8_t tweak[8], int rounds, int decrypt);
+void ref_round128(uint8_t g[16], const uint8_t rk[8], int inverse);
+void ref_round64(uint8_t out[8], const uint8_t in[8], const uint8_t rk[4], int inverse);
 void ref_counter_add(uint8_t *ctr, unsigned len, uint64_t add);
 #endif
